@@ -134,7 +134,7 @@ def call_cone(fns_by_key):
             name = m.group(1)
             if name in AMBIGUOUS: continue
             cands = by_name.get(name, [])
-            if 0 < len(cands) <= 12: out |= set(cands)
+            if 0 < len(cands) <= 24: out |= set(cands)
         for m in re.finditer(r"(?<![\w:.])(\w+)\s*\(", bt):
             for c in by_name.get(m.group(1), []):
                 if fns_by_key[c]["impl"] == "-": out.add(c)
@@ -290,6 +290,20 @@ def main(argv):
             for l in f.get("labels", []): ps |= set(label_props(l))
             if not f.get("labels") and not f.get("safety"): ps |= set(SHARED)
             if pid in ps or k in cone.get(pid, ()): out_of_reach.append((k, stub_reason.get(k, "")))
+        kani_info = None
+        if pid in KANI_PROPS:
+            touched = any(k.split("|")[0].startswith(KANI_FILES) for k in fns_by_key if baseline and baseline.get(k) != fns_by_key[k]["body_hash"])
+            if a.tier == "thorough" or touched:
+                if "kani" not in globals().get("_KANI_CACHE", {}): globals().setdefault("_KANI_CACHE", {})["kani"] = run_kani(a.src)
+                kani_info = _KANI_CACHE["kani"]
+                if kani_info.get("error") and not kani_info["results"]:
+                    print("UNDECIDED: Kani harnesses could not be run: %s" % str(kani_info["error"])[-400:]); exit_undecided = True
+                for hname, ok in sorted(kani_info["results"].items()):
+                    if hname.startswith(KANI_PROPS[pid]):
+                        obls = obls + ["%s.kani.%s" % (pid, hname)]
+                        if not ok:
+                            fails = fails + [{"obligation": "%s.kani.%s" % (pid, hname), "kind": "Kani closed-term harness failed", "fn": None, "label": None, "props": [pid], "message": "VERIFICATION:- FAILED",
+                                              "line": None, "text": "", "rendered": "harness proofs::%s on the real source failed (closed term: the instantiation is the failing input)" % hname, "src_file": "kani/lib.rs.tmpl", "src_line": None}]
         kf = [k for k in known.get("findings", []) if k["property"] == pid]
         new_fails = []
         for f in fails:
@@ -314,6 +328,10 @@ def main(argv):
             if not a.no_replay:
                 witness = find_witness(pid, new_fails, a.src)
             found = bool(witness and witness.get("found"))
+            kani_fail = [f for f in new_fails if ".kani." in f["obligation"]]
+            if kani_fail and not found:
+                witness = {"found": True, "witness": "closed-term Kani harness %s fails on the real source: %s" % (kani_fail[0]["obligation"].split(".")[-1], kani_fail[0]["rendered"]), "by": "kani/cbmc"}
+                found = True
             strong = [f for f in new_fails if not weak(f)]
             if strong or found:
                 rc = 1
@@ -336,12 +354,38 @@ def main(argv):
                 for k, why in out_of_reach:
                     print("UNDECIDED: property=%s function %s is outside the verifier's reach (%s) and the bounded witness search found no failing input" % (pid, k, why))
         if not a.no_evidence:
-            write_evidence(pid, a.tier, seed, obls, discharged, fails, runs, vr, times, ctx, assumptions_scan, trusted, time.time() - t0, unit, out_of_reach)
+            write_evidence(pid, a.tier, seed, obls, discharged, fails, runs, vr, times, ctx, assumptions_scan, trusted, time.time() - t0, unit, out_of_reach, kani_info)
     if rc == 0 and exit_undecided:
         return 2
     if rc == 0:
         print("OK %s: verus %d verified, 0 property obligations refuted (tier %s, %.1fs)" % (a.prop, vr.get("verified", 0), a.tier, time.time() - t0))
     return rc
+
+def run_kani(src):
+    """closed-term Kani harnesses on the real header/version/purpose/PAE files (complete proofs, no bound on inputs): harness -> ok"""
+    h = hashlib.md5(os.path.abspath(src).encode()).hexdigest()[:10]
+    d = os.path.join(VERIF, "build", "kani_" + h); os.makedirs(os.path.join(d, "src"), exist_ok=True)
+    shutil.copy(os.path.join(VERIF, "kani", "Cargo.toml"), os.path.join(d, "Cargo.toml"))
+    if os.path.exists(os.path.join(VERIF, "kani", "Cargo.lock")): shutil.copy(os.path.join(VERIF, "kani", "Cargo.lock"), os.path.join(d, "Cargo.lock"))
+    open(os.path.join(d, "src", "lib.rs"), "w").write(open(os.path.join(VERIF, "kani", "lib.rs.tmpl")).read().replace("@SRC@", os.path.abspath(src)))
+    env = dict(os.environ, CARGO_NET_OFFLINE="true", CARGO_TARGET_DIR=os.path.join(VERIF, "build", "kani_target"))
+    t0 = time.time()
+    try:
+        p = subprocess.run(["cargo", "kani"], cwd=d, env=env, capture_output=True, text=True, timeout=1800)
+    except Exception as e:
+        return {"error": repr(e), "results": {}, "wall": time.time() - t0}
+    res = {}; cur = None
+    for line in p.stdout.split("\n"):
+        m = re.match(r"Checking harness proofs::(\w+)", line)
+        if m: cur = m.group(1)
+        m = re.match(r"VERIFICATION:- (\w+)", line)
+        if m and cur: res[cur] = (m.group(1) == "SUCCESSFUL")
+    err = None
+    if not res: err = (p.stdout[-600:] + p.stderr[-1200:])
+    return {"error": err, "results": res, "wall": time.time() - t0, "cmd": "cargo kani (harness crate kani/, real sources included by #[path])"}
+
+KANI_PROPS = {"C07": "header_", "C08": "le64_"}
+KANI_FILES = ("core/header.rs", "core/version/", "core/purpose/", "core/common/pre_authentication_encoding.rs")
 
 def find_witness(pid, fails, src):
     """run the concrete witness finder of the replay crate against the real crate (only after a refutation)"""
@@ -356,7 +400,7 @@ def find_witness(pid, fails, src):
     except Exception as e:
         return {"found": False, "note": "witness finder failed to run: %r" % e}
 
-def write_evidence(pid, tier, seed, obls, discharged, fails, runs, vr, times, ctx, scan, trusted, wall, unit, out_of_reach=()):
+def write_evidence(pid, tier, seed, obls, discharged, fails, runs, vr, times, ctx, scan, trusted, wall, unit, out_of_reach=(), kani_info=None):
     fn_under = [f for f in ctx.fn_index if f["contract"]]
     smt = times.get("smt", {}) if isinstance(times, dict) else {}
     fb = []
@@ -397,6 +441,7 @@ def write_evidence(pid, tier, seed, obls, discharged, fails, runs, vr, times, ct
             "unit": os.path.relpath(unit, VERIF),
             "refuted": [f["obligation"] for f in fails],
             "functions_outside_verifier": [k for k, _ in out_of_reach],
+            "kani": ({"backend": "kani 0.68 / cbmc", "harnesses": kani_info["results"], "wall_s": round(kani_info.get("wall", 0), 1), "cmd": kani_info.get("cmd")} if kani_info else "not run in this tier (header constants are then an assumption of the Verus unit)"),
         },
         "assumptions": trusted.get("assumption_text", []) + trusted.get("assumption_text_" + pid, []),
         "wall_s": round(wall, 2),
